@@ -58,6 +58,11 @@ TEXT = {
         note="Hook programs are pure. Values: one owned field, one foreign field. The quick tier is a covering sub-product, the thorough tier the full product.",
         technique="bounded-exhaustive enumeration of scenarios, each executed to a fixpoint on the real code; differential fixpoint oracle",
     ),
+    "C08": dict(
+        level="Bounded-exhaustive model checking of complete rollouts under a fair environment: every rollout of the product (children, scopes, method, status checks, selector generation, injection index of a second spec change) is run to completion on the real controller; oracle = completion within the linear bound, Updated=True, exactly one ControllerRevision left, and a stall detector (RolloutWaiting 'missing child' for a child that was in the cache).",
+        note="Liveness is checked as bounded liveness (sync count bound), never by wall-clock. Health is a single Ready condition plus observedGeneration.",
+        technique="bounded-exhaustive enumeration of fair histories executed on the real code (explicit-state, linear schedules x injection index)",
+    ),
 }
 
 PENDING_REASON = "check not built yet in this session (planned in DESIGN.md §4); no claim is made until its check runs clean on the unchanged tree"
